@@ -230,8 +230,31 @@ func (w *websocket) write(data types.BufferInterface, compress bool) {
 // Closes the transport.
 func (w *websocket) DoClose(fn types.Callable) {
 	ws_log.Debug(`closing`)
-	defer w.socket.Close()
+	defer w.closeConn()
 	if fn != nil {
 		fn()
+	}
+}
+
+// closeConn tears the connection down, but not under a batch that the last
+// flush handed over and the send goroutine is still writing: a graceful close
+// would otherwise lose the packets it had waited for. A discarded transport is
+// closed at once.
+func (w *websocket) closeConn() {
+	if w.Discarded() {
+		w.socket.Close()
+		return
+	}
+	var once sync.Once
+	closeFn := func(...any) {
+		once.Do(func() {
+			w.socket.Close()
+		})
+	}
+	// "ready" is emitted after the batch in flight has been written
+	w.Once("ready", closeFn)
+	if w.Writable() {
+		w.RemoveListener("ready", closeFn)
+		closeFn()
 	}
 }
